@@ -818,7 +818,8 @@ struct Outcome {
 }
 
 fn stem(e: &str) -> String {
-  // stable part of an error message: letters only, first words
+  // stable part of an error message: letters only, first words, nothing after a path or quoted name
+  let e = e.split(|c| c == '/' || c == '"').next().unwrap_or(e);
   let s: String = e.chars().map(|c| if c.is_ascii_alphanumeric() { c.to_ascii_lowercase() } else { '-' }).collect();
   let parts: Vec<&str> = s.split('-').filter(|p| !p.is_empty() && !p.chars().all(|c| c.is_ascii_digit())).take(6).collect();
   parts.join("-")
